@@ -3,10 +3,10 @@ package hamt
 import (
 	"fmt"
 
+	"github.com/ipfs/go-cid"
 	"github.com/ipfs/go-unixfsnode/data"
 	"github.com/ipfs/go-unixfsnode/internal/verifmodel"
 	"github.com/ipfs/go-unixfsnode/internal/verifrt"
-	"github.com/ipfs/go-cid"
 	dagpb "github.com/ipld/go-codec-dagpb"
 	"github.com/ipld/go-ipld-prime"
 	"github.com/ipld/go-ipld-prime/datamodel"
